@@ -623,7 +623,7 @@ func TestC21(t *testing.T) {
 	r.Assume("what the backend receives is Gate's own encoding of each written packet (snapshot at WritePacket), decoded by the independent ref/chatwire decoder; packet ids are out of scope (C06)")
 	r.Assume("ack packets carry no id: they are attributed to the client packets lying between the neighbouring id-carrying packets whose HandlePacket call preceded the write (most favourable attribution)")
 
-	n := r.N(3000, 60000)
+	n := r.N(2000, 60000)
 	master := r.Rng("specs")
 	seeds := make([]int64, n)
 	for i := range seeds {
